@@ -92,7 +92,9 @@ JudgeObs(e) ==
   LET B == Eff(Br(e)) IN
   [why |->   Cl(e.running = B.running, "C17:running-flag")
           \o Cl(SetOf(e.listening) = B.bound, "C17:listening-ports")
-          \o Cl(\A p \in PortSet(B) \ B.limbo : (p \in SetOf(e.bindable)) <=> Bindable(B, p), "C17:ports-released"),
+          \* a port the bridge has closed is promised to be free once the loop has cycled; it may be free earlier (a stop() that
+          \* waits for its sockets to close), so while it is "being released" either observation is right
+          \o Cl(\A p \in PortSet(B) \ (B.limbo \cup UNION {BB[j].closing : j \in 1..NB}) : (p \in SetOf(e.bindable)) <=> Bindable(B, p), "C17:ports-released"),
    tag |-> (IF B.running THEN "obs-running" ELSE IF B.closing # {} THEN "obs-closing" ELSE "obs-stopped") \o (IF Br(e) = 2 THEN "-second-bridge" ELSE "")]
 
 Upd(k, B2) == [BB EXCEPT ![k] = [B2 EXCEPT !.occupied = {}]]
